@@ -80,6 +80,16 @@ func verifCLICheck(a, b JsonNode, fi int) string {
 	fa, fb := filepath.Join(dir, "a"), filepath.Join(dir, "b")
 	os.WriteFile(fa, []byte(text(a)), 0o644)
 	os.WriteFile(fb, []byte(text(b)), 0o644)
+	// the library is given what the binaries are given: the documents as read from these texts
+	// (YAML does not keep the sign of -0, for one)
+	if fs.yaml {
+		ra, ea := ReadYamlString(text(a))
+		rb, eb := ReadYamlString(text(b))
+		if ea != nil || eb != nil {
+			return "" // C16's concern
+		}
+		a, b = ra, rb
+	}
 	// library result
 	d := a.Diff(b, fs.opts...)
 	var want string
